@@ -200,6 +200,30 @@ where
         }
     }
 
+    fn on_random(
+        &self,
+        id: Id,
+        state: &mut Cow<Self::State>,
+        random: &Self::Random,
+        o: &mut Out<Self>,
+    ) {
+        use WORegisterActor as A;
+        use WORegisterActorState as S;
+        match (self, &**state) {
+            (A::Client { .. }, S::Client { .. }) => {}
+            (A::Server(server_actor), S::Server(server_state)) => {
+                let mut server_state = Cow::Borrowed(server_state);
+                let mut server_out = Out::new();
+                server_actor.on_random(id, &mut server_state, random, &mut server_out);
+                if let Cow::Owned(server_state) = server_state {
+                    *state = Cow::Owned(WORegisterActorState::Server(server_state))
+                }
+                o.append(&mut server_out);
+            }
+            _ => {}
+        }
+    }
+
     fn on_msg(
         &self,
         id: Id,
